@@ -81,7 +81,7 @@ def find_appenders(ctx):
     return out
 
 
-def subarray_role(ctx, expr, func):
+def subarray_role(ctx, expr, func, _depth=0):
     """VALUESDIR / INDICESDIR / None for an expression denoting a sub-array
     handle of a ragged array."""
     d = dotted(expr)
@@ -105,6 +105,11 @@ def subarray_role(ctx, expr, func):
             pv = ctx.E.pathval(p, func) if p is not None else None
             if pv is not None and pv.role in ('VALUESDIR', 'INDICESDIR'):
                 return pv.role
+        elif isinstance(v, ast.Attribute) and _depth < 3:
+            # a local alias of a sub-array handle:  values = ra._values
+            r = subarray_role(ctx, v, func, _depth + 1)
+            if r:
+                return r
     return None
 
 
